@@ -273,7 +273,12 @@ pub fn build(c: &FCase, openq: &Quirks) -> Built {
         let is_loop = matches!(insn.mn, "loop" | "loope" | "loopz" | "loopne" | "loopnz");
         // 3 = the same jump line executed three times (inside a procedure called three times) with CX = a, b, a: only
         // MOV / CALL / RET lie between the executions, so the flag word is the same each time
-        let jkind = if c.fam == Fam::Jumps { if b.jkind == 3 { 3 } else if is_loop { b.jkind } else { 0 } } else { 0 };
+        // 4 = a conditional jump closing a loop whose only changing state is a byte in memory (registers, and from the
+        // second pass on often the flags too, are the same every time the jump is taken)
+        let jkind = if c.fam == Fam::Jumps { if b.jkind == 3 { 3 } else if is_loop { b.jkind } else if b.jkind == 2 && !insn.mn.eq_ignore_ascii_case("jcxz") && !insn.mn.eq_ignore_ascii_case("jmp") { 4 } else { 0 } } else { 0 };
+        if jkind == 4 {
+            work += 3000;
+        }
         if jkind == 1 || jkind == 2 {
             r[2] = if b.vals[7] & 7 != 0 { r[2] % 40 } else { r[2] % 3000 };
             work += 2 * (if r[2] == 0 { 65536 } else { r[2] as u64 });
@@ -376,8 +381,8 @@ pub fn build(c: &FCase, openq: &Quirks) -> Built {
         if c.fam == Fam::Jumps {
             let t = format!("t_{}", k);
             insn.ops = vec![Opd::Name(t.clone())];
-            tested.push(format!("{} ({})", insn.mn, ["forward", "self", "backward", "revisited"][jkind as usize]));
-            classes.push(format!("l3/jump/{}", ["forward", "self-target", "backward-loop", "revisited-line"][jkind as usize]));
+            tested.push(format!("{} ({})", insn.mn, ["forward", "self", "backward", "revisited", "backward, memory-counted"][jkind as usize]));
+            classes.push(format!("l3/jump/{}", ["forward", "self-target", "backward-loop", "revisited-line", "backward-memory-counted"][jkind as usize]));
             match jkind {
                 0 => {
                     code.push(Item::Ins(insn.clone()));
@@ -404,6 +409,28 @@ pub fn build(c: &FCase, openq: &Quirks) -> Built {
                     }
                     if n >= 1 {
                         classes.push("l3/jump/self-target-repeated".into());
+                    }
+                }
+                4 => {
+                    let cell = Opd::Mem(W::B, Mem { seg: None, shape: Shape::Direct(0x0040 + (b.vals[1] & 0x0F)) });
+                    emit(&mut rn, &mut code, Insn::new("mov", vec![cell.clone(), Opd::Imm(4 + (b.vals[0] % 3), ImmKind::SB)]));
+                    let body = Insn::new("sub", vec![cell, Opd::Imm(1, ImmKind::SB)]);
+                    code.push(Item::Label(t));
+                    code.push(Item::Ins(body.clone()));
+                    code.push(Item::Ins(insn.clone()));
+                    let mut n = 0u32;
+                    loop {
+                        rn.run(&body);
+                        if matches!(rn.run(&insn), Outcome::Next) {
+                            break;
+                        }
+                        n += 1;
+                        if n > 600 {
+                            break;
+                        }
+                    }
+                    if n >= 3 {
+                        classes.push("l3/jump/backward-memory-counted-taken-3-times-or-more".into());
                     }
                 }
                 3 => {
